@@ -11,7 +11,17 @@ def run_units(units):
     C.snapshot()
     with cf.ThreadPoolExecutor(max_workers=min(len(units), C.NCPU) or 1) as ex:
         futs = [ex.submit(C.run_verus_unit, n, m) for (n, m) in units]
-        return [f.result() for f in futs]
+        res = [f.result() for f in futs]
+    for r in res:
+        if r["status"] == "fail" and not r.get("credible", True):
+            # DESIGN 11.13: the edit displaced annotation blocks of the failing item, so the failed obligation may only say that the proof
+            # hints no longer fit the text.  It is NOT reported as a violation by itself: the unit is undecided on this tree and the other
+            # layers of the check (which run on the real code and produce witnesses) decide.
+            r["proof_lost"] = True
+            r["status"] = "undecided"
+            r["reason"] = "the proof does not carry over to the edited text (%s); obligations that no longer go through: %s [%s]" % (
+                "; ".join(r.get("hints_displaced", [])), ", ".join(r.get("failed", [])), "; ".join(dict.fromkeys(e["msg"] for e in r.get("error_messages", []) if not e["msg"].startswith("aborting"))))
+    return res
 
 
 def summarize(results):
